@@ -50,6 +50,25 @@ def shard_text(ctx, cases):
             "Definition result : list Z := mism ++ viol.\n")
 
 
+BASIC_HEADER = cdc.HEADER + "From PV Require Import Circuit.Registry Circuit.Token_decode Circuit.Printer_lex Circuit.Parser_basic.\n"
+
+
+def basic_shard_text(ctx, cases):
+    """basic syntax (to_string(), decimals=-1): the printer model, the parser model and the SPECIFICATION [pconn] used by the
+    theorem C03_basic_round_trip, all against what the implementation printed and parsed"""
+    items = []
+    for i, tlit, text, obs in cases:
+        items.append("(%d%%Z, %s, %s, %s)" % (i, tlit, lib.codepoints(text), cdc.outcome_lit(ctx, obs)))
+    return ("Definition cases : list (Z * conn * str * outcome conn) := [\n" + ";\n".join(items) + "].\n"
+            "Definition F := 280%nat.\n"
+            "Definition is_err (o : outcome conn) : bool := match o with Err _ => true | _ => false end.\n"
+            "Definition result : list Z := flat_map (fun c : Z * conn * str * outcome conn => let '(i, t, text, o) := c in\n"
+            "  if str_eqb (to_string builtin_registry None t F) text\n"
+            "     && outcome_close F (parse builtin_registry text) o\n"
+            "     && (match pconn builtin_registry F t with Some n => outcome_close F (Ok (top n)) o | None => is_err o end)\n"
+            "  then [] else [i]) cases.\n")
+
+
 def finding_probes(ctx):
     """specific inputs of recorded findings; each returns (id, still_fails)"""
     from pyimpspec import parse_cdc, Resistor, Circuit, Series
@@ -90,7 +109,8 @@ def run(rep, tier, seed, tr_errors):
         "decimal<->double conversion is compared at relative 2^-48 (not proved); text fixpoint not claimed for decimals=15 (16 significant digits do not identify a double)",
         "tools/cdc.py: circuit generator and the spelling printer (the oracle for alternative spellings)",
     ]
-    thm_ok, names, out = lib.check_props_file(rep, PROPS_FILE, expect=["C03_container_scope", "C03_one_node_per_step"])
+    thm_ok, names, out = lib.check_props_file(rep, PROPS_FILE, expect=["C03_container_scope", "C03_one_node_per_step", "C03_basic_text_lexes_exactly", "C03_builtin_registry_symbols_valid",
+                                                                    "C03_basic_round_trip", "C03_basic_round_trip_applies"])
     n_rt = 250 if tier == "quick" else 5000
     n_sp = 400 if tier == "quick" else 8000
     cases = []
@@ -131,6 +151,14 @@ def run(rep, tier, seed, tr_errors):
         if len(c.get_elements(recursive=True)) >= 2:
             rep.distinct.add(text)
         i += 1
+    # basic syntax: to_string() of random circuits (also degenerate ones: one-item parallels are refused by the parser)
+    bcases = []
+    for _ in range(150 if tier == "quick" else 3000):
+        c = cdc.rand_circuit(ctx, rng, depth=rng.randint(0, 4), digits=3)
+        text = c.to_string()
+        bcases.append((i, circuit_lit.circuit_lit(c, ctx.rows, ctx.idx), text, cdc.parse_observe(text)))
+        rep.evaluations += 1
+        i += 1
     rep.samples = [{"kind": k, "decimals": d, "text": t[:200], "parsed": (o[1].to_string() if o[0] == "ok" else o[1])}
                    for _, k, d, _, t, o, _ in (cases[3:5] + cases[n_rt + 3:n_rt + 5])]
     rep.extra["input_distribution"] = {"round_trip_cases": n_rt, "spelling_cases": n_sp,
@@ -139,6 +167,11 @@ def run(rep, tier, seed, tr_errors):
     per = 60
     shards = [cases[j:j + per] for j in range(0, len(cases), per)]
     outs = lib.run_shards(PROP, cdc.HEADER, [shard_text(ctx, sh) for sh in shards], timeout=900)
+    bouts = lib.run_shards(PROP + "b", BASIC_HEADER, [basic_shard_text(ctx, bcases[j:j + 75]) for j in range(0, len(bcases), 75)], timeout=900)
+    bmism = [j for rc, parsed, raw in bouts if rc == 0 and parsed is not None for j in parsed]
+    bbroken = [(si, raw[-800:]) for si, (rc, parsed, raw) in enumerate(bouts) if rc != 0 or parsed is None]
+    rep.oblige("correspondence:basic-syntax printer, parser and the theorem's specification pconn vs to_string()/parse_cdc",
+               not bmism and not bbroken, "%d cases, %d mismatches, %d shards failed" % (len(bcases), len(bmism), len(bbroken)))
     mism, viol, broken = [], [], []
     for si, (rc, parsed, raw) in enumerate(outs):
         if rc != 0 or parsed is None:
@@ -175,7 +208,11 @@ def run(rep, tier, seed, tr_errors):
             c = by[j]
             rep.violation("correspondence_%d" % j, {"kind": "broken-obligation", "obligation": "correspondence:Printer.v+Parser.v",
                                                    "input": {"kind": c[1], "decimals": c[2], "text": c[4]}}, no_input=True)
-        for si, raw in broken[:2]:
+        bby = {c[0]: c for c in bcases}
+        for j in sorted(set(bmism))[:3]:
+            rep.violation("basic_%d" % j, {"kind": "broken-obligation", "obligation": "correspondence:basic syntax (Printer.v, Parser.v, pconn)",
+                                           "input": {"text": bby[j][2], "parsed": (bby[j][3][1].to_string() if bby[j][3][0] == "ok" else bby[j][3][1])}}, no_input=True)
+        for si, raw in (broken + bbroken)[:2]:
             rep.violation("shard_%d" % si, {"kind": "broken-obligation", "obligation": "cases shard did not evaluate", "log": raw}, no_input=True)
     if not thm_ok and not rep.violations:
         rep.violation("theorems", {"kind": "broken-obligation", "obligation": PROPS_FILE,
